@@ -13,7 +13,7 @@ from ..etf import (load_spec, dispatch_table, DEC, ENC, OWNED, BORROWED, encoder
 ATOMS_255 = ('`atoms` is collected from `atom_set`, whose size is checked by the dominating `atom_set.len() > 255 -> TooManyAtoms` return; '
              'an enumerate() index over it is < 255')
 REVIEWED_CAST = {
-    're:erltf::encoder::encode_with_dist_header_multi:len\\(next\\(.*\\)\\.as:Some\\.0\\.1\\.name\\)\\(usize->u8\\)':
+    're:erltf::encoder::encode_with_dist_header_multi:len\\(next\\(.*\\)\\.as:Some\\.0\\.1\\.name\\)\\((usize|u16)->u8\\)':
         'taken only when `long_atoms` is false, i.e. no atom of the set is longer than 255 bytes (the `any(len > 255)` scan over the same vector)',
     're:erltf::encoder::encode_integer:.*map_or.*\\(usize->u8\\)':
         'significant_len is the number of significant bytes of an 8-byte array (1..=8 by construction: rposition over [u8; 8] plus one)',
